@@ -238,7 +238,11 @@ func (w *world) baselineCheck(base0 procState) *pbt.Violation {
 		if time.Since(t0) > 60*time.Second {
 			lalclient.Harness("process state neither returns to the baseline nor stabilises: %s", d)
 		}
-		time.Sleep(20 * time.Millisecond)
+		if time.Since(t0) < 100*time.Millisecond {
+			time.Sleep(time.Millisecond)
+		} else {
+			time.Sleep(20 * time.Millisecond)
+		}
 	}
 }
 
